@@ -468,6 +468,80 @@ func c20Options(p *Prog, r *Report) {
 			r.Check(len(stop) == 1 && dec, R, nm+"/count", f.Pos(), "stops at 0, decrements otherwise, -1 never stops", nm+" does not honour the requested count (stop at 0 / decrement / -1 unbounded)")
 		}
 	}
+	// "no --send-interval" is the sentinel -1 (Initialize): an explicit interval of 0 means
+	// repeat without pause, so the tests on it are `< 0` (unset) and `>= 0` (set), never <= / >
+	sentinel := false
+	if ini := q.Fn(R, "macat", "App", "Initialize"); ini.OK() {
+		sentinel = len(ini.Ev("store", "recv.sendInterval").Arg(0, "-1")) == 1
+	}
+	r.Check(sentinel, R, "send-interval/unset-is-minus-one", "-", "Initialize sets sendInterval to -1", "Initialize no longer marks --send-interval as unset with -1")
+	nTests := 0
+	for _, nm := range []string{"sendLoop", "sendRecvLoop"} {
+		f := q.Fn(R, "macat", "App", nm)
+		if !f.OK() {
+			continue
+		}
+		EachInstr(f.fn, func(in ssa.Instruction) {
+			iff, ok := in.(*ssa.If)
+			if !ok {
+				return
+			}
+			a := NormAtom(iff.Cond, true)
+			l, op, rr := splitAtom(a)
+			if l != "recv.sendInterval" || rr != "0" {
+				return
+			}
+			nTests++
+			r.Check(op == "<" || op == ">=", R, nm+"/send-interval-zero-is-set@"+op, p.InstrPos(in), "sendInterval tested against the sentinel as "+a, nm+" tests `"+a+"`: an explicit --send-interval 0 (repeat without pause) is treated as 'no interval given' (or the reverse), so the message is not sent the requested number of times")
+		})
+	}
+	r.Count("c20.send_interval_tests", nTests)
+	r.Floor(R, "c20.send_interval_tests", 2)
+
+	R = "C20.9/rejected-means-failed"
+	r.Describe(R, "macat's main: whenever Run returns an error the process exits with a non-zero status (after printing it): 'rejected with an error instead of running'")
+	if mf := p.Func("macat/macat", "", "main"); mf == nil {
+		r.Bad(R, "anchor:macat/macat.main", "-", "ANCHOR-MISSING: function macat/macat.main not found")
+	} else {
+		var exits []ssa.Instruction
+		EachInstr(mf, func(in ssa.Instruction) {
+			c := CallOf(in)
+			if c == nil || c.IsInvoke() || len(c.Args) != 1 {
+				return
+			}
+			d := Desc(c.Value)
+			if k, ok := ConstInt(c.Args[0]); ok && k != 0 && (strings.HasSuffix(d, ".exitFunc") || d == "os.Exit" || strings.HasSuffix(CalleeName(c), "os.Exit")) {
+				exits = append(exits, in)
+			}
+		})
+		n := 0
+		bad := ""
+		var via Sel
+		for _, x := range exits {
+			via = append(via, &Ev{Kind: "call", In: x})
+		}
+		EachInstr(mf, func(in ssa.Instruction) {
+			iff, ok := in.(*ssa.If)
+			if !ok {
+				return
+			}
+			for pol, k := range map[bool]int{true: 0, false: 1} {
+				a := NormAtom(iff.Cond, pol)
+				if !strings.Contains(a, ".Run(") || !strings.HasSuffix(a, " != nil") {
+					continue
+				}
+				n++
+				succ := in.Block().Succs[k]
+				if len(succ.Instrs) == 0 {
+					continue
+				}
+				if pass, where := q.mustPass(succ.Instrs[0], via); !pass {
+					bad = where
+				}
+			}
+		})
+		r.Check(len(exits) >= 1 && n >= 1 && bad == "", R, "main/error-exits-nonzero", p.Pos(mf.Pos()), "every return after a failed Run has passed exit(1)", "main can return normally (exit status 0) after Run reported an error (return at "+bad+"): a rejected command line looks like a successful run to the caller")
+	}
 }
 
 func hasAtomPrefix(g []string, pre string) bool {
